@@ -130,7 +130,7 @@ class _Helper:
         # each call has its own cell for them, so an inlined copy needs its own variable
         self.captured = set()
         for n in _all_nodes(node):
-            if n is not node and isinstance(n, (ast.Lambda, ast.FunctionDef, ast.AsyncFunctionDef)):
+            if n is not node and isinstance(n, (ast.Lambda, ast.FunctionDef, ast.AsyncFunctionDef, ast.GeneratorExp)):
                 self.captured.update(x.id for x in ast.walk(n) if isinstance(x, ast.Name))
 
 
@@ -617,6 +617,12 @@ def _inline_in_function(func, cls, qual, helpers_by_name):
                     xn = [e.id for e in T.elts]
                     if len(set(rn)) == len(rn) and len(set(xn)) == len(xn):
                         pairs = dict(zip(rn, xn))
+            if form == 'assign' and isinstance(st.targets[0], ast.Name):
+                # ``x = H(x, ..)`` with H rebinding that parameter: the parameter is the caller's x
+                for idx_, prm_ in enumerate(h.params):
+                    if idx_ < len(call.args) and isinstance(call.args[idx_], ast.Name) and call.args[idx_].id == st.targets[0].id \
+                            and prm_ in h.stored:
+                        pairs.setdefault(prm_, st.targets[0].id)
             arg_uses = {}
             for a_ in list(call.args) + [kw.value for kw in call.keywords]:
                 for n in ast.walk(a_):
